@@ -105,4 +105,19 @@ CHECKS["C10"] = dict(
              "model); default 30-bit primes.",
 )
 
+CHECKS["C04"] = dict(
+        src="checks/c04.cpp", cfg="rel", link="shared", engine="D-envelope-model",
+        category="model_checking", design_ref="DESIGN.md section 2 (Engine D) and section 4, C04",
+        technique="explicit enumeration of an exact-integer abstract envelope model (all sizes, primes, stages, all ell) with conformance of real stage traces obtained by ELF interposition",
+        text="The lazy arithmetic of the q120 NTT, iNTT and product kernels is modelled as exact integer upper bounds per (transform, n, prime, "
+             "stage) and per (kernel, ref/avx2, ell, prime); the whole state space (n = 2^0..2^16, both directions, four primes, every ell in "
+             "0..10000) is enumerated and every side condition - lazy subtraction never negative, no 64-bit overflow, 32-bit multiplier "
+             "operands not truncated - is an invariant. All constants come from the real precomputed objects. The model is bound to the code: "
+             "the stage sequence of real runs is observed through interposed ntt_iter* calls and must be the certified schedule (levels "
+             "partition [0,n)), measured lane maxima must stay below the certified bounds, every twiddle word is checked, and concrete "
+             "worst-case runs must be exact modulo each prime.",
+        note="The transfer functions are hand-written over-approximations of the kernels (trusted, but cross-checked by measured maxima and "
+             "exactness of extremal runs); default 30-bit primes only.",
+)
+
 NOT_YET = {}
